@@ -69,7 +69,7 @@ extern "C" void h_c15f_escape_ostream()
     unsigned char *in = sym_buffer(n);
     unsigned limit = nondet_u8();
     ASSUME(limit <= 40);
-    bool prefailed = nondet_bool();
+    bool prefailed = verif_param(1) != 0;   // concrete per solver instance
     rec_buf &ra = *new rec_buf(limit);
     int r = cppcms::util::escape((char const *)in, (char const *)in + n, ra);
     rec_buf &rb = *new rec_buf(limit);
